@@ -163,6 +163,7 @@ func checkC01(w *World, r *Report) {
 	r.Rule("C01.abort", "P5", "on the minter's block tree every call that mints or forwards coins (directly or below it) has its failure edge end in an error return or, at the block routine, in a panic: a half-done mint is never committed", 4)
 	r.Rule("C01.wrapper", "P4,P6", "= C14.wrapper: the distributor's burn and transfer wrappers pass amount, account and result through unchanged (a burn of more than what its caller books would shrink supply beyond the configured share)", 4)
 	r.Rule("C01.burn1", "P5,P6", "the burn is reached only under the true edge of State.Burn; the burned coins are result #0 of state.Remains.TruncateDecimal(), the account is DistributorMainAccount, and state.Remains is overwritten with result #1 of the same call only on the success edge", 5)
+	r.Rule("C01.select", "P7", "= C02.select: the amount minted in a block is the schedule of the CURRENT period counted from its predecessor's end; both are selected by sequence id over all configured periods (a selection by list position mints off schedule for accepted lists in another order)", 18)
 	if !ro.checkFloors(r) {
 		return
 	}
@@ -315,6 +316,8 @@ func checkC01(w *World, r *Report) {
 
 	// ---------- C01.errprop ----------
 	shareRule(w, r, checkC05, "C05.errprop", "C01.errprop", nil)
+	// ---------- C01.select ----------
+	minterSelectRule(w, r, "C01.select")
 	// ---------- C01.parties ----------
 	for _, m := range []string{"cfevesting", "cfesignature"} {
 		rs := cg.Reach(ro.MSG[m])
